@@ -41,8 +41,8 @@ pub fn prop_info(prop: &str) -> PropInfo {
 
 pub fn run_shard(prop: &str, tier: &str, seed: u64, shard: u64, budget: Duration, max_iters: u64) -> ShardReport {
     let shard_seed = seed.wrapping_mul(0x9E37_79B9_7F4A_7C15) ^ (shard + 1).wrapping_mul(0xD1B5_4A32_D192_ED03) ^ fx(prop);
-    if tier == "miri" {
-        if let Some(c) = props::miri_by_name(prop) {
+    if tier.starts_with("miri") {
+        if let Some(c) = props::miri_by_name(prop, tier) {
             return crate::campaign::run_campaign(c.as_ref(), shard_seed, budget, max_iters);
         }
         eprintln!("no Miri campaign for {prop}");
@@ -143,6 +143,43 @@ pub fn check(prop: &str, tier: &str) -> i32 {
             .expect("spawn shard");
         children.push((i, child, out));
     }
+    // ---- Miri lane: the same campaigns (component drivers; tiny whole-scheduler blocks in the
+    // thorough tier) interpreted by Miri: weak-memory behaviours permitted by the declared atomic
+    // orderings, pre-emption at arbitrary points, data-race and UB detection.
+    let miri_tier = if tier == "thorough" { "miri-thorough" } else { "miri" };
+    let miri_enabled = std::env::var("VERIF_MIRI").map(|v| v != "0").unwrap_or(true) && props::miri_by_name(prop, miri_tier).is_some();
+    let mut miri_children = Vec::new();
+    if miri_enabled {
+        let (m_shards, m_iters): (usize, u64) = if tier == "thorough" { (12, 40) } else { (4, 10) };
+        let m_shards: usize = std::env::var("VERIF_MIRI_SHARDS").ok().and_then(|s| s.parse().ok()).unwrap_or(m_shards);
+        let m_iters: u64 = std::env::var("VERIF_MIRI_ITERS").ok().and_then(|s| s.parse().ok()).unwrap_or(m_iters);
+        let m_budget = if tier == "thorough" { budget * 0.8 } else { budget * 0.9 };
+        for i in 0..m_shards {
+            let out = shard_dir.join(format!("{prop}-{tier}-miri-{i}.json"));
+            let _ = std::fs::remove_file(&out);
+            let log = std::fs::File::create(shard_dir.join(format!("{prop}-{tier}-miri-{i}.log"))).ok();
+            let mut cmd = Command::new("cargo");
+            cmd.current_dir(root.join("harness"))
+                .args(["+nightly", "miri", "run", "--offline", "-q", "--"])
+                .args(["shard", prop, miri_tier, &seed.to_string(), &(1000 + i).to_string(), &format!("{m_budget}"), &m_iters.to_string()])
+                .arg(&out)
+                .env("MIRIFLAGS", "-Zmiri-tree-borrows -Zmiri-permissive-provenance -Zmiri-disable-isolation")
+                .env("CARGO_NET_OFFLINE", "true")
+                .stdout(Stdio::null());
+            match log {
+                Some(f) => {
+                    cmd.stderr(f);
+                }
+                None => {
+                    cmd.stderr(Stdio::null());
+                }
+            }
+            match cmd.spawn() {
+                Ok(child) => miri_children.push((i, child, out)),
+                Err(e) => println!("INCONCLUSIVE property={prop} could not start Miri shard {i}: {e}"),
+            }
+        }
+    }
     let mut merged_stats = json!({});
     let mut evaluations = 0u64;
     let mut distinct: BTreeSet<String> = BTreeSet::new();
@@ -193,6 +230,86 @@ pub fn check(prop: &str, tier: &str) -> i32 {
             inconclusive.push(s.as_str().unwrap_or("").to_string());
         }
         let _ = std::fs::remove_file(&out);
+    }
+
+    let mut miri = json!({"enabled": miri_enabled, "shards": miri_children.len(), "evaluations": 0, "distinct_nontrivial": 0, "extra": {}, "killed": 0});
+    if !miri_children.is_empty() {
+        let deadline = Instant::now() + Duration::from_secs_f64(budget * 3.0 + 180.0);
+        let mut m_eval = 0u64;
+        let mut m_nt = 0u64;
+        let mut m_extra = json!({});
+        let mut killed = 0u64;
+        for (i, mut child, out) in miri_children {
+            let status = loop {
+                match child.try_wait() {
+                    Ok(Some(st)) => break Some(st),
+                    Ok(None) => {
+                        if Instant::now() > deadline {
+                            let _ = child.kill();
+                            let _ = child.wait();
+                            break None;
+                        }
+                        std::thread::sleep(Duration::from_millis(200));
+                    }
+                    Err(_) => break None,
+                }
+            };
+            match status {
+                None => {
+                    killed += 1;
+                    inconclusive.push(format!("Miri shard {i} exceeded its wall-clock allowance and was stopped (no verdict from it)"));
+                    continue;
+                }
+                Some(st) if !st.success() => {
+                    // Miri reports UB / data races / deadlocks by failing the process
+                    let log = std::fs::read_to_string(shard_dir.join(format!("{prop}-{tier}-miri-{i}.log"))).unwrap_or_default();
+                    let is_ub = log.contains("Undefined Behavior") || log.contains("Data race") || log.contains("deadlock");
+                    let tail: String = log.lines().rev().take(25).collect::<Vec<_>>().into_iter().rev().collect::<Vec<_>>().join("\n");
+                    if is_ub {
+                        findings.push(json!({
+                            "property": prop, "monitor": "MIRI", "owner": prop, "signature": "MIRI:ub-or-race",
+                            "message": format!("Miri aborted shard {i}: {}", tail.chars().take(1500).collect::<String>()),
+                            "replay": {"property": prop, "monitor": "MIRI", "log_tail": tail, "shard": i, "seed": seed},
+                        }));
+                    } else {
+                        inconclusive.push(format!("Miri shard {i} exited with {st}: {}", tail.chars().take(300).collect::<String>()));
+                    }
+                }
+                _ => {}
+            }
+            let Ok(sj) = std::fs::read_to_string(&out) else { continue };
+            let Ok(v) = serde_json::from_str::<Value>(&sj) else { continue };
+            m_eval += v["evaluations"].as_u64().unwrap_or(0);
+            m_nt += v["distinct_nontrivial"].as_array().map(|a| a.len() as u64).unwrap_or(0);
+            merge_numbers(&mut m_extra, &v["extra"]);
+            for f in v["findings"].as_array().into_iter().flatten() {
+                let mut f = f.clone();
+                f["message"] = format!("[Miri lane] {}", f["message"].as_str().unwrap_or("")).into();
+                findings.push(f);
+            }
+            for d in v["distinct_nontrivial"].as_array().into_iter().flatten() {
+                distinct_nt.insert(format!("miri:{}", d.as_str().unwrap_or("")));
+            }
+            for d in v["distinct"].as_array().into_iter().flatten() {
+                distinct.insert(format!("miri:{}", d.as_str().unwrap_or("")));
+            }
+            for smp in v["samples"].as_array().into_iter().flatten() {
+                if samples.len() < 5 {
+                    let mut smp = smp.clone();
+                    smp["lane"] = "miri".into();
+                    samples.push(smp);
+                }
+            }
+            for sx in v["inconclusive"].as_array().into_iter().flatten() {
+                inconclusive.push(format!("[Miri lane] {}", sx.as_str().unwrap_or("")));
+            }
+            let _ = std::fs::remove_file(&out);
+        }
+        evaluations += m_eval;
+        miri["evaluations"] = m_eval.into();
+        miri["distinct_nontrivial"] = m_nt.into();
+        miri["extra"] = m_extra;
+        miri["killed"] = killed.into();
     }
 
     // ---- verdicts ------------------------------------------------------------------------------
@@ -265,6 +382,7 @@ pub fn check(prop: &str, tier: &str) -> i32 {
             "exhaustive": false,
             "observed": merged_stats,
             "workload": other,
+            "miri_lane": miri,
             "shards": shards,
             "budget_s_per_shard": budget,
             "verdict": verdict,
